@@ -171,7 +171,10 @@ def run_unit(unit, variant, multiple_errors=20, extra_args=(), rlimit=None):
             if pat in msg:
                 kind = k
                 break
-        spans = d.get("spans", [])
+        all_spans = d.get("spans", [])
+        # spans inside vstd (inherited trait specifications, std preconditions) carry no location of ours: use ours only
+        spans = [s_ for s_ in all_spans if os.path.basename(s_.get("file_name", "")) == fname] or []
+        foreign_primary = any(s_.get("is_primary") for s_ in all_spans if s_ not in spans)
         prim = [s for s in spans if s.get("is_primary")] or spans
         gl = prim[0]["line_start"] if prim else 0
         tag = None
